@@ -583,12 +583,17 @@ func parseSendStatement(statementCtx *parser.SendStatementContext) *SendStatemen
 	}
 }
 
-func parseNumberLiteral(numNode antlr.TerminalNode) *NumberLiteral {
+func parseNumberLiteral(numNode antlr.TerminalNode) ValueExpr {
 	amtStr := numNode.GetText()
 
 	amt, err := strconv.Atoi(amtStr)
 	if err != nil {
-		panic("Invalid number: " + amtStr)
+		// the lexer only lets digits (and a leading minus) through,
+		// so the failure means that the number doesn't fit a machine int
+		return &BigNumberLiteral{
+			Range:  tokenToRange(numNode.GetSymbol()),
+			Number: unsafeParseBigInt(amtStr),
+		}
 	}
 
 	return &NumberLiteral{
